@@ -12,3 +12,36 @@ class Engine(DbEngine):
     rule = 'histories of store/remove/delete/reopen with content sizes straddling the 2048-byte debug chunk (10, 300, 1500, 2040, 2047, 2048, 4200 bytes; multi-chunk) in BOTH build profiles (debug: a file growth every few stores; release: 4 MiB chunks); after EVERY op every offset ever returned by a successful store is read back and compared (hash) with what was stored, every id is looked up; reopen inserted at random positions. oracle: read-back equals stored bytes, offsets pairwise distinct; correspondence: exact offsets and end marker vs the model. non-trivial = history with >= 2 stores'
     trusted = DbEngine.db_trusted
     assumptions = ['that bytes already written survive set_len/mremap growth is an OS fact: assumed by the model, observed by the harness']
+
+    def generate(self, rng, tier):
+        import random
+        import common as C
+        from dbgen import HistGen, AUTHORS, fake_id
+        out = super().generate(rng, tier)
+        # exact-fill histories: the event map is filled to its very last byte (end marker == file length),
+        # then the store is reopened and used again (debug profile: 2048-byte chunks)
+        for i in range(25 if tier == "quick" else 400):
+            sub = random.Random(rng.getrandbits(64))
+            g = HistGen(sub, {"new": 1}, 0).run()
+            end = 8
+            n = sub.choice([0, 1, 3, 6])
+            for j in range(n + 1):
+                e = g.new_event(kind=1, pk=sub.choice(AUTHORS), tags=[])
+                if j == n:
+                    base = end if end % 8 == 0 else end + 8 - end % 8
+                    target = ((base + 152) // 2048 + sub.choice([1, 1, 2])) * 2048
+                    e["content"] = b"F" * (target - base - 152)
+                else:
+                    e["content"] = b"c" * sub.choice([0, 7, 100, 1900, 2048])
+                e["id"] = fake_id(e)
+                g.op_store(e)
+                g.note_event(e)
+                base = end if end % 8 == 0 else end + 8 - end % 8
+                end = base + 152 + len(e["content"])
+            g.ops.append(("reopen",))
+            for _ in range(sub.choice([1, 2])):
+                g.g_store_new()
+            if sub.random() < 0.5:
+                g.ops.append(("reopen",))
+            out.append(("exact-fill", g.render()))
+        return out
